@@ -62,7 +62,7 @@ CHECKS = {
    text="Stage 1: generated sequential programs whose user code does not allocate (preallocated event log) are evaluated under enumerated failure plans; the evaluating thread's allocation counter must not move across the macro expression. Stage 2: typed chains under the four non-spawning macros with values that are neither Send nor Clone, move-only values, shared and mutable borrows of the caller's locals, up to 7 branches; the macro side must compile whenever the documented chain does and agree with it."),
  "C17": dict(level="exploration", engine="R", design="6/C17",
    technique="property-based testing: wide / long generated grid programs with captures on most positions against the reference model (index stage); typed chains with macro invocations nested in operands, captures and initial values to depth 3, compared with the documented chain (nesting stage)",
-   text="Stage 1: programs with up to 24 branches x 24 actions per step and block captures on 70 % of the operand positions under the eight macro kinds - a clash between any two generated names makes a branch use another position's closure or value, which the model comparison shows. Stage 2: every nested invocation (12 macro names, three kinds of place, depth <= 3) is evaluated once inside an expansion and once in plain Rust and must agree. Nesting inside handlers is not generated."),
+   text="Stage 1: programs with up to 24 branches x 24 actions per step and block captures on 70 % of the operand positions under the eight macro kinds - a clash between any two generated names makes a branch use another position's closure or value, which the model comparison shows. Stage 2: every nested invocation (12 macro names; inside operands, block captures, initial values and handlers; depth <= 3) is evaluated once inside an expansion and once in plain Rust and must agree."),
  "C16": dict(level="exploration", engine="R", design="6/C16",
    technique="property-based testing with logging harness joiners and a stand-in futures crate: generated programs x legal option prefixes through the real proc-macros, invariant over the joiner's own log plus the reference model; exhaustive enumeration of option orders / subsets / duplicates at library level",
    text="Stage 1 (runtime): generated programs with differing depths under the eight macro kinds carry option prefixes in rotated orders; eager, lazy (reverse-calling), handle-passing, async and self-transposing joiners log invocation count, arity and which branch each argument evaluates, and tag their outputs. Stage 2: `futures_crate_path(::jvrt::fx)` in a crate with no dependency called futures. Stage 3 (engine L): all 65 ordered option subsets x values x gluing first branches parse to the written fields, every single duplicate is rejected. One defect fixed (duplicate accepted after four passes), one open known finding (sync try + transpose_results(false) + unequal depths does not compile; probed on every run)."),
